@@ -247,7 +247,8 @@ fn tokens(e: &'static Encoding) -> Vec<Vec<u8>> {
     }
 }
 
-/// every sequence of up to three tokens, the whole stream in one call with `last`: raw on both sinks with a
+/// every sequence of up to three tokens, the whole stream in one call with `last` (two-token sequences also
+/// one token per call): raw on both sinks with a
 /// large destination (odd sequences: one byte per call instead, so that the state queries — `max_*`,
 /// `latin1_byte_compatible_up_to` — are asked in every intermediate state), and with replacement in every
 /// capacity from the documented minimum to minimum + 3
@@ -256,17 +257,18 @@ fn token_sequences(out: &mut Out, e: &'static Encoding, props: &[&str], c07: boo
     if toks.is_empty() {
         return;
     }
-    let mut seqs: Vec<Vec<u8>> = Vec::new();
+    // (stream, length of the first token if the sequence has exactly two)
+    let mut seqs: Vec<(Vec<u8>, usize)> = Vec::new();
     for a in &toks {
-        seqs.push(a.clone());
+        seqs.push((a.clone(), 0));
         for b in &toks {
-            seqs.push([a.as_slice(), b.as_slice()].concat());
+            seqs.push(([a.as_slice(), b.as_slice()].concat(), a.len()));
             for c in &toks {
-                seqs.push([a.as_slice(), b.as_slice(), c.as_slice()].concat());
+                seqs.push(([a.as_slice(), b.as_slice(), c.as_slice()].concat(), 0));
             }
         }
     }
-    for (i, s) in seqs.into_iter().enumerate() {
+    for (i, (s, first)) in seqs.into_iter().enumerate() {
         let n = s.len();
         let each: Vec<usize> = (1..=n).collect();
         if c07 {
@@ -280,6 +282,11 @@ fn token_sequences(out: &mut Out, e: &'static Encoding, props: &[&str], c07: boo
             let m = min_cap(sink16);
             for cap in m..=m + 3 {
                 emit(out, &plan(e, sink16, true, s.clone(), vec![n], vec![cap]), props);
+                if first > 0 {
+                    // two tokens, one call each: the second call starts in the state the first token left
+                    // (the end-of-stream block of UTF-16 can only run out of space this way)
+                    emit(out, &plan(e, sink16, true, s.clone(), vec![first, n], vec![cap]), props);
+                }
             }
         }
     }
